@@ -12,7 +12,10 @@ import (
 	_ "verif/harness/c03"
 	_ "verif/harness/c04"
 	_ "verif/harness/c05"
+	_ "verif/harness/c06"
 	_ "verif/harness/c09"
+	_ "verif/harness/c10"
+	_ "verif/harness/c11"
 	_ "verif/harness/c12"
 )
 
